@@ -145,3 +145,24 @@ def ifchange_verdict(prog):
     i.e. without building its own DirtyCallbacks as redo-ood does."""
     c = [b for b in bodies_calling(prog, r"deps::is_dirty", unit="bin") if not BA.of(b).calls(r"deps::DirtyCallbacksBuilder::.*")]
     return the(c, "bin-unit body that calls deps::is_dirty with the default callbacks (redo-ifchange's should_build)")
+
+
+def lock_opener(prog):
+    """The body that opens the lock file: state::LockManager::open, or - when that was merged into its caller - the
+    body that opens a file and builds the LockManager value from it."""
+    b = prog.bodies.get("state::LockManager::open")
+    if b is not None:
+        return b
+    from core import BA
+    cands = [b for b in bodies_constructing(prog, r"state::LockManager") if BA.of(b).calls(r"std::fs::OpenOptions::open|std::fs::File::(open|create)")]
+    return the(cands, "the body that opens the lock file and builds the LockManager")
+
+
+def lock_open_calls(prog, body):
+    """Call blocks of `body` that open the lock file: calls of the opener, or (opener merged into `body`) its file-open calls."""
+    from core import BA
+    op = lock_opener(prog)
+    ba = BA.of(body)
+    if op.key != body.key:
+        return ba.calls(re.escape(op.key))
+    return ba.calls(r"std::fs::OpenOptions::open|std::fs::File::(open|create)")
